@@ -38,6 +38,7 @@ def split_passes(stream):
 
 class C09(Base):
     ID = "C09"
+    EXPECTED_PROBES = ('obs_before_first_next', 'obs_after_exhaustion', 'pass2')
     SIZES = {"quick": (32, 24), "thorough": (128, 64)}
     RULE = ("worlds of 1-3 (thorough: 1-6) interleaved schedules; per slot "
             "k in 0..4 adjoint passes requested, is_exhausted/is_running (and"
@@ -168,6 +169,7 @@ class C09(Base):
 
 class C11(Base):
     ID = "C11"
+    EXPECTED_PROBES = ('obs_before_first_next', 'obs_after_exhaustion')
     SIZES = {"quick": (32, 24), "thorough": (128, 64)}
     RULE = ("worlds of 1-3 interleaved schedules; uses_storage_type queried "
             "for all four StorageType members at seeded instants (before the "
@@ -346,6 +348,7 @@ class EnumDriver:
 
 class C10(Base):
     ID = "C10"
+    EXPECTED_PROBES = ('c10_accepted', 'c10_late_or_early_accept', 'c10_rejected_mid_reverse', 'c10_noop', 'c10_stream_compared')
     LEVEL = "fault_enumeration"
     TECHNIQUE = ("deterministic simulation with fault injection: single-fault"
                  " enumeration of finalize(k) at every instant of small "
@@ -549,6 +552,7 @@ HELPERS = ("optimal_steps_binomial", "optimal_steps_mixed",
 
 class C15(Base):
     ID = "C15"
+    EXPECTED_PROBES = ('c15_baselines', 'c15_observer_pairs', 'e3_worlds')
     FORK_PER_RUN = True
     SIZES = {"quick": (32, 24), "thorough": (128, 64)}
     SLOTS = {"quick": (2, 6), "thorough": (2, 40)}
